@@ -50,3 +50,13 @@ H_ENTRY(h_radix64_decode) {
   if (vfh_exc == 0) vf_assert(out.size() <= 3 * ((n + 3) / 4), "decoded size bounded by input size");
   H_END();
 }
+
+H_ENTRY(h_mpi_decode) {
+  tmcg_openpgp_octets_t in;
+  vfh_bytes(in, H_MAXLEN);
+  gcry_mpi_t out = gcry_mpi_new(8);
+  size_t r = 0, sum = 0; H_TRY(r = PGP::PacketMPIDecode(in, out, sum));
+  vf_assert(vfh_exc == 0 || vfh_exc == 1, "only standard exceptions may leave PacketMPIDecode");
+  if (vfh_exc == 0) vf_assert(r <= in.size(), "consumed length is within the input");
+  H_END();
+}
